@@ -67,6 +67,8 @@ def instances(pid, tier, seed):
     out = []
     for c in catalog.select(**cfg["cat"]):
         out.append(dict(id=c["id"], y=c["y"], kind=c["kind"], explicit=c["explicit"]))
+        if "costs" in c:
+            out[-1]["costs"] = c["costs"]
     out += gen.family(seed * 7919 + hash(pid) % 1000 if False else seed * 7919 + int(pid[1:]), cfg["n"][tier], cfg["profiles"])
     rng = random.Random(seed * 31 + int(pid[1:]))
     jobs = []
@@ -75,7 +77,7 @@ def instances(pid, tier, seed):
         inp["explicit"] = g.get("explicit", [])
         costs = cfg.get("costs", ["one"])
         jobs.append(dict(id=g["id"], y=g["y"], kind=g["kind"], width=32, sections=cfg["sections"], inputs=inp,
-                         recovery=cfg["recovery"], costs=costs[i % len(costs)], iseed=rng.randrange(1 << 40),
+                         recovery=cfg["recovery"], costs=g.get("costs", costs[i % len(costs)]), iseed=rng.randrange(1 << 40),
                          budget_ms=cfg.get("budget_ms", 2000)))
     return jobs
 
